@@ -115,9 +115,6 @@ theorem payloadOf_val (a : Option MRef) (v : Nat) :
 
 /-! ### rectangles -/
 
-/-- `(row_start, col_start, row_end, col_end)`. -/
-abbrev Rct := Int × Int × Int × Int
-
 def Rct.r0 (q : Rct) : Int := q.1
 def Rct.c0 (q : Rct) : Int := q.2.1
 def Rct.r1 (q : Rct) : Int := q.2.2.1
@@ -139,9 +136,6 @@ def Rct.InTable (q : Rct) (nr nc : Int) : Prop :=
   0 ≤ q.r0 ∧ q.r0 ≤ q.r1 ∧ q.r1 < nr ∧ 0 ≤ q.c0 ∧ q.c0 ≤ q.c1 ∧ q.c1 < nc
 
 def Rct.Disjoint (a b : Rct) : Prop := ∀ k, ¬ (a.has k = true ∧ b.has k = true)
-
-/-- the rectangle an anchor entry `((row, col), (rows, cols))` stands for. -/
-def rectOf (a : Key × (Int × Int)) : Rct := (a.1.1, a.1.2, a.1.1 + a.2.1 - 1, a.1.2 + a.2.2 - 1)
 
 /-- what the map holds for `k` if `k` lies in `q`. -/
 def Rct.entry (q : Rct) (k : Key) : MRef :=
@@ -1271,7 +1265,7 @@ theorem removeAt_getElem? {β} (l : List β) (i n j : Nat) (h : i ≤ l.length) 
   · simp only [h1, if_false, List.getElem?_drop]
     congr 1; omega
 
-/-- the grid operation `mstep` performs: payloads of written / default-filled cells. -/
+/-- the grid operation `mstepPinned` performs: payloads of written / default-filled cells. -/
 def liftOp (s : MState) : Grid.Op Nat → Grid.Op MCell
   | .write r c v => .write r c (setMerge (s.mmap.get (r, c)) (rawCell v))
   | .addRow n st d => .addRow n st (d.map valCell)
@@ -1279,9 +1273,9 @@ def liftOp (s : MState) : Grid.Op Nat → Grid.Op MCell
   | .delRow n st => .delRow n st
   | .delCol n st => .delCol n st
 
-theorem mstep_eq (s : MState) (op : Grid.Op Nat) :
-    mstep s op = (Grid.step emptyCell s.grid (liftOp s op)).map (fun g => { s with grid := g }) := by
-  cases op <;> simp only [mstep, mwrite, liftOp, Grid.step, bind, Except.bind, Except.map, pure, Except.pure]
+theorem mstepPinned_eq (s : MState) (op : Grid.Op Nat) :
+    mstepPinned s op = (Grid.step emptyCell s.grid (liftOp s op)).map (fun g => { s with grid := g }) := by
+  cases op <;> simp only [mstepPinned, mwrite, liftOp, Grid.step, bind, Except.bind, Except.map, pure, Except.pure]
 
 /-- an edit the merge map does not have to follow: a write that does not hit a placeholder, or a
     row / column insertion / deletion strictly after every merged rectangle. -/
@@ -1362,8 +1356,8 @@ theorem fillVal_pay (d : Option Nat) : ∃ v, Grid.fillVal emptyCell (d.map valC
 
 /-- **Edits that need no map update keep the table consistent** (same map, same rectangles). -/
 theorem safe_edit_consistent (s : MState) (hs : Consistent s) (op : Grid.Op Nat) (hsafe : SafeEdit s op)
-    (s' : MState) (h : mstep s op = .ok s') : Consistent s' ∧ s'.mmap = s.mmap := by
-  rw [mstep_eq] at h
+    (s' : MState) (h : mstepPinned s op = .ok s') : Consistent s' ∧ s'.mmap = s.mmap := by
+  rw [mstepPinned_eq] at h
   cases hg : Grid.step emptyCell s.grid (liftOp s op) with
   | error e => rw [hg] at h; cases h
   | ok g' =>
